@@ -18,7 +18,7 @@ var (
 	// the two programs have items whose program/name concatenations coincide
 	ProgPool    = []string{"cmd/go", "cmd/go2", "cmd/g", "golang.org/x/tools/gopls", "Cmd/go", "cmd/go/a"}
 	VersionPool = []string{"v1.2.3", "v1.2.4-pre.1", "devel", "go1.22.1", ""}
-	GoVersPool  = []string{"go1.21.0", "go1.22.1", "go1.22", "devel"}
+	GoVersPool  = []string{"go1.21.0", "go1.22.1", "go1.22", "devel", "go1.21rc2", "go1.22beta1"}
 	GOOSPool    = []string{"linux", "darwin", "windows"}
 	GOARCHPool  = []string{"amd64", "arm64", "386"}
 	// counter expressions in the documented syntax; expansions are pairwise disjoint
@@ -225,6 +225,16 @@ func CountFiles(t *rapid.T, cfg *telemetry.UploadConfig, ends []time.Time, o Fil
 			if len(cfg.GoVersion) > 0 {
 				b.GoVersion = rapid.SampledFrom(cfg.GoVersion).Draw(t, "approvedGo")
 			}
+		}
+		// near misses of listed values: approval is by exact string, so a listed value with a build tag, a
+		// pre-release suffix, a major-version path element or stray white space is not listed
+		switch rapid.IntRange(0, 23).Draw(t, "nearMissMeta") {
+		case 0:
+			b.Version += rapid.SampledFrom([]string{"+dirty", "+incompatible", "-dirty", "-0.20240101000000-abcdef123456", " ", ".0", "-pre.1"}).Draw(t, "versionSuffix")
+		case 1:
+			b.GoVersion += rapid.SampledFrom([]string{"rc1", "+dirty", "-X:boringcrypto", " X:nocoverageredesign", ".0", "-devel"}).Draw(t, "goVersionSuffix")
+		case 2:
+			b.Program += rapid.SampledFrom([]string{"/v2", ".exe", "@latest", "/", " "}).Draw(t, "programSuffix")
 		}
 		if !o.OnlyKnown {
 			switch rapid.IntRange(0, 11).Draw(t, "inventMeta") {
